@@ -188,6 +188,7 @@ func (g GRPCAPI) ServeWho(id uint32, tag string) {
 		return s
 	})
 }
+
 // ServeWhoRaw accepts the id with the broker's Accept and serves the who service on the listener
 // itself, never closing it: an application that leaves its brokered listeners to the shutdown.
 func (g GRPCAPI) ServeWhoRaw(id uint32, tag string) error {
